@@ -224,7 +224,16 @@ def r19_4(run):
     opened = []
     from ..arrnf import ANF as _ANF
     rcl = _ANF(ix, cl).run()
+    # entries loaded inside a `try` whose handler accepts a missing file are optional (the heating values), whatever the test
+    # around them looks like
+    optional_events = set()
+    for t_ in rcl.tries:
+        if any(any(n_ in h_["type"] for n_ in ("FileNotFoundError", "OSError", "IOError", "Exception")) for h_ in t_["handlers"]):
+            optional_events.update(range(*t_["body_events"]))
+    ev_pos = {id(e_): i_ for i_, e_ in enumerate(rcl.events)}
     for s_ in rcl.stores():
+        if ev_pos.get(id(s_)) in optional_events:
+            continue
         # <dict>[<property name>] = <local loader>(<file stem>)   (unconditional entries only: the heating values are optional)
         if len(s_.index) == 1 and s_.index[0][0] == "c" and isinstance(s_.index[0][1], str) and not s_.loops and not \
                 any(c_[0] == "cmp" and ("c", "gas") in (c_[2], c_[3]) for c_, _p in s_.cond) \
